@@ -23,24 +23,24 @@ def scale_derived(expr: ast.expr, f, depth: int = 0, P=None) -> bool:
     txt = norm(expr)
     if ".scale[1:]" in txt or ".scale [1:]" in txt:
         return True
-    if isinstance(expr, ast.Subscript) and norm(expr.slice) == "1:" and depth < 4:
+    if isinstance(expr, ast.Subscript) and norm(expr.slice) == "1:" and depth < 9:
         base = expr.value
         if isinstance(base, ast.Name):
             defs = [s for s in ast.walk(f.node) if isinstance(s, ast.Assign) and any(isinstance(t, ast.Name) and t.id == base.id for t in s.targets)]
             return bool(defs) and all(norm(d.value).endswith(".scale") for d in defs)
     if isinstance(expr, ast.Call) and call_name(expr) == "tuple" and expr.args:
         return scale_derived(expr.args[0], f, depth + 1, P)
-    if P is not None and isinstance(expr, ast.Call) and isinstance(expr.func, ast.Attribute) and norm(expr.func.value) == "self" and f.cls is not None and depth < 3:
+    if P is not None and isinstance(expr, ast.Call) and isinstance(expr.func, ast.Attribute) and norm(expr.func.value) == "self" and f.cls is not None and depth < 8:
         m = P.lookup_method(f.cls.qname, expr.func.attr)
         if m is not None:
             rets = [r for r in ast.walk(m.node) if isinstance(r, ast.Return) and r.value is not None and norm(r.value) != "None"]
             return bool(rets) and all(scale_derived(r.value, m, depth + 1, P) for r in rets)
-    if P is not None and isinstance(expr, ast.Attribute) and norm(expr.value) == "self" and f.cls is not None and depth < 3:
+    if P is not None and isinstance(expr, ast.Attribute) and norm(expr.value) == "self" and f.cls is not None and depth < 8:
         m = P.lookup_method(f.cls.qname, expr.attr)
         if m is not None and "property" in m.decorators():
             rets = [r for r in ast.walk(m.node) if isinstance(r, ast.Return) and r.value is not None and norm(r.value) != "None"]
             return bool(rets) and all(scale_derived(r.value, m, depth + 1, P) for r in rets)
-    if isinstance(expr, ast.Name) and expr.id in getattr(f, "params", []) and P is not None and f.cls is not None and depth < 3:
+    if isinstance(expr, ast.Name) and expr.id in getattr(f, "params", []) and P is not None and f.cls is not None and depth < 8:
         # a parameter: every same-class call site passes a scale-derived value
         sites = [(m, c) for m in f.cls.methods.values() for c in ast.walk(m.node)
                  if isinstance(c, ast.Call) and isinstance(c.func, ast.Attribute) and c.func.attr == f.name and norm(c.func.value) == "self"]
@@ -49,7 +49,7 @@ def scale_derived(expr: ast.expr, f, depth: int = 0, P=None) -> bool:
         return bool(vals) and all(v is not None and scale_derived(v, m, depth + 1, P) for m, v in vals)
     if isinstance(expr, ast.Name):
         defs = [s for s in ast.walk(f.node) if isinstance(s, ast.Assign) and any(isinstance(t, ast.Name) and t.id == expr.id for t in s.targets)]
-        return bool(defs) and all(scale_derived(d.value, f, depth + 1, P) for d in defs) if depth < 3 else False
+        return bool(defs) and all(scale_derived(d.value, f, depth + 1, P) for d in defs) if depth < 8 else False
     if isinstance(expr, ast.IfExp):
         # None if scale is None else tuple(scale[1:])
         return scale_derived(expr.orelse, f, depth + 1, P) or scale_derived(expr.body, f, depth + 1, P)
